@@ -78,7 +78,7 @@ def cases(ctx, budget):
         r = rng.random()
         if r < 0.65:
             base = gen.render_query(rng, gen.rand_query(rng, names=gen.NAMES if rng.random() < 0.3 else gen.SIMPLE_NAMES, depth=rng.randint(1, 3)))
-            yield mk(harness.mutate_text(rng, base), "near-miss")
+            yield mk(harness.mutate_text(rng, base) if rng.random() < 0.6 else harness.mutate_struct(rng, base), "near-miss")
         elif r < 0.9:
             yield mk("$" + "".join(rng.choice(harness.ALPH) for _ in range(rng.randint(0, 14))), "token-soup")
         else:
